@@ -176,7 +176,7 @@ func runChain(t *testing.T, s *session, bs []behaviour, n int) {
 		add(fmt.Sprintf("chain-%s-%d", b.Kind, i), b.Hist, i*7+int(vh.Seed()), false, true)
 	}
 	for i := 0; len(progs) < n+n/3 && i < 4*n; i++ { // seeded random schedules restricted to contract calls
-		h := genRandomKinds(s.r, 30+s.r.Intn(80), 3+s.r.Intn(3), 4+s.r.Intn(5), i%4 == 0, i%8 == 0, []int{kRV1, kRV1, kCC0})
+		h := genRandomKinds(s.r, 30+s.r.Intn(80), 3+s.r.Intn(3), 4+s.r.Intn(5), i%4 == 0, []int{0, 4, 0, 0, 0, 0, 0, 0, 16}[i%9], []int{kRV1, kRV1, kCC0})
 		add(fmt.Sprintf("chain-random-%d", i), h, i, false, false)
 	}
 	// deployments
